@@ -2077,8 +2077,11 @@ fn find_required_sections<'data, A: Arch>(
     drop(verif_region);
 
     let mut errors: Vec<Error> = take(resources.errors.lock().unwrap().as_mut());
+    // The order in which errors were pushed depends on thread scheduling. Sort them so that the
+    // error we report is deterministic.
+    errors.sort_by_key(|e| e.to_string());
     // TODO: Figure out good way to report more than one error.
-    if let Some(error) = errors.pop() {
+    if let Some(error) = errors.into_iter().next() {
         return Err(error);
     }
 
